@@ -32,6 +32,10 @@ SPEC = [
     ("char_len", "character(len={d1}) :: {n1} = '{s1}'", "fix"),
     ("char_star", "character(len=*), parameter :: {n1} = \"{s1}\"", ""),
     ("int_many", "integer :: {n1}, {n2}, {n3}, {n4}, {n5}, {n6}, {n7}({d1}), i8, i9, i10 = {d1}, i11({d1})", "fix"),
+    ("entity_arr_init", "integer :: {n1}({n2} + 1) = {d1}, {n3}(1:{d2}) = {d3}", "fix"),
+    ("char_entity_len", "character :: {n1}({n2} - 1)*{d1}, {n3}*({d2})", "fix"),
+    ("real_kindname", "real(kind) :: {n1}", "fix"),
+    ("char_kind_len", "character(len = {d1}, kind = {n1}) :: {n2}", "fix"),
     ("int_dim", "integer, dimension({d1}) :: {n1}", "fix one"),
     ("real_alloc", "real, allocatable :: {n1}(:, :)", "one"),
     ("type_decl", "type({n1}) :: {n2}", "fix"),
@@ -90,6 +94,8 @@ EXEC = [
     ("assign_paren", "{n1} = ({n2} + {d1}) * ({n3} - {n1})", "fix one"),
     ("assign_call", "{n1} = {n2}({n3}, {d1}) + {n4}({n5}({d2}))", "fix one"),
     ("assign_section", "{n1}(1:{d1}, :) = {n2}(::{d2}, {n3})", "one"),
+    ("assign_stride_expr", "{n1}({d1}:{n2}:{n3}({n4} + 1)) = {n2}(::({n3} * {d2}))", ""),
+    ("assign_substr", "{n1}({d1}:{n2}) = {n3}({n4})(:{d2}) // {n5}%{n6}(2:)", ""),
     ("assign_arrcons", "{n1} = (/ {d1}, {d2}, {n2} /)", "fix"),
     ("assign_arrcons_long", "{n1} = (/ {d1}, {d2}, {n2}, {d1}, {n2}, {d3}, 7, {n3}, 9, {n2} + 1, {n3} /)", "fix"),
     ("call_long", "call {n1}({n2}, {n3}, {n2}, {d1}, {d1}, {n4}, {n2}, 8, {n4}, {n3}({n2}), {n2})", "fix"),
@@ -110,17 +116,17 @@ EXEC = [
     ("read_star", "read(*, *) {n1}", "fix one"),
     ("read_iostat", "read({d1}, *, iostat = {n1}) {n2}", "fix"),
     ("open_stmt", "open(unit = {d1}, file = '{s1}', status = 'old')", "fix one"),
-    ("close_stmt", "close({d1})", "fix one"),
+    ("close_stmt", "close(unit = {d1})", "fix one"),
     ("inquire", "inquire(unit = {d1}, exist = {n1})", "fix"),
     ("rewind", "rewind {d1}", "fix one"),
-    ("backspace", "backspace({d1})", "fix"),
+    ("backspace", "backspace(unit = {d1})", "fix"),
     ("endfile", "endfile {d1}", "fix"),
-    ("flush", "flush({d1})", ""),
+    ("flush", "flush(unit = {d1})", ""),
     ("allocate", "allocate({n1}({d1}))", "one"),
     ("allocate_stat", "allocate({n1}({d1}, {d2}), stat = {n2})", "one"),
     ("deallocate", "deallocate({n1})", "one"),
     ("goto", "goto {L1}\n{L1} continue", "fix one"),
-    ("computed_goto", "go to ({L1}, {L2}) {n1}\n{L1} continue\n{L2} continue", "fix"),
+    ("computed_goto", "go to ({L1}, {L2}), {n1}\n{L1} continue\n{L2} continue", "fix"),
     ("arith_if", "if ({n1}) {L1}, {L2}, {L1}\n{L1} continue\n{L2} continue", "fix"),
     ("stop_plain", "stop", "fix one"),
     ("stop_code", "stop {d1}", "fix one"),
